@@ -24,7 +24,7 @@
 From Coq Require Import List NArith ZArith Bool Sorted.
 From Verif Require Import Lib.Bytes Lib.Assoc Model.App Model.DKGPure Model.DKGDriver Model.Outbox.
 From Verif Require Import Proofs.DKGChain Proofs.DKGExamples Proofs.OutboxEvolve Proofs.OutboxCoh Proofs.Outbox
-     Proofs.OutboxRun Proofs.OutboxMsgs Proofs.OutboxMsgs2 Proofs.OutboxApp Proofs.OutboxExamples.
+     Proofs.OutboxRun Proofs.OutboxFlag Proofs.OutboxRun2 Proofs.OutboxMsgs Proofs.OutboxMsgs2 Proofs.OutboxApp Proofs.OutboxExamples.
 From Verif Require Import Generated.DkgPhase Proofs.DkgPhase.
 Import ListNotations.
 Open Scope Z_scope.
@@ -152,48 +152,36 @@ Example C08_resent_vote_is_error_nonvacuous :
   exists s', App.deliver_batch_config enum_id VoteEx.s0 VoteEx.k1 5%N [VoteEx.k1; VoteEx.k2] 2%N 1%N = Some (s', (code_ok, [])).
 Proof. exact VoteEx.first_vote_ok. Qed.
 
-(* Same outcome, partial.  Proved: for every execution, the execution consisting of its surviving
-   operations alone (no crash, no attempt that did not commit, no broadcast that was not sent)
-   is possible too and ends with the same database and the same sequence of messages received by
-   shuttermint - crashes are invisible in the durable state and to shuttermint.  Hypothesis
-   [along canon]: in the crash-free execution a synchronised cache's isKeyper flag agrees with
-   what Load computes; this holds for a keyper that is a member of the first config it stores
-   (every run of the differential check).  Missing: (1) for a keyper outside every stored config
-   the flag differs (false in the cache, true after a reload); the two behave alike unless an
-   EonStarted event names a config the keyper has no row for, which shuttermint never emits -
-   not proved; (2) the surviving operations still contain the re-sends; that they are harmless is
-   C08_resent_dkg_message_is_seen, that one of them is not is C08_resent_vote_is_error. *)
+(* Same outcome, partial.  Proved for every execution of every keyper (member of the stored
+   configs or not): the execution consisting of its surviving operations alone (no crash, no
+   attempt that did not commit, no broadcast that was not sent) is possible too and ends with the
+   same database and the same sequence of messages received by shuttermint - crashes are invisible
+   in the durable state and to shuttermint.  (The reloaded cache of a keyper that is in no stored
+   config says isKeyper where the running cache does not; Proofs/OutboxFlag.v shows that a
+   committed block transaction does the same to the database and the DKG map either way.)
+   Missing, and the only thing missing: the surviving operations still contain the re-sends that
+   follow a lost broadcast reply or a deletion that did not commit.  That shuttermint answers
+   them Seen, so that they change nothing, is C08_resent_dkg_message_is_seen for DKG messages and
+   result votes; for a batch-config vote it is false (C08_resent_vote_is_error, known finding
+   C08:config-vote-resent-after-crash-blocks-outbox), and then the run with the crash and the run
+   without it do differ. *)
 Theorem C08_same_outcome_partial :
   forall (C E P : Type) (commit_of : P -> C) (eval_of : P -> nat -> E) (verify : nat -> E -> C -> bool)
          (deg_ok : N -> C -> bool) (valid_eval : E -> bool) (me : addr) (L : Z)
          (enum : list (N * active C E P) -> list (N * active C E P)) (delta : Z),
   enum_entries_ok C E P enum ->
   forall (ops : list (op C E P)) (w : world C E P),
-  along C E P commit_of eval_of verify deg_ok valid_eval me L enum delta (canon C E P)
-        (world_init C E P) (filter (survives C E P) ops) ->
   run C E P commit_of eval_of verify deg_ok valid_eval me L enum delta (world_init C E P) ops = Some w ->
   exists w', run C E P commit_of eval_of verify deg_ok valid_eval me L enum delta (world_init C E P)
                  (filter (survives C E P) ops) = Some w' /\
              w_o w = w_o w' /\ w_log w = w_log w'.
-Proof.
-  intros C E P commit_of eval_of verify deg_ok valid_eval me L enum delta Henum ops w Hal Hr.
-  destruct (crashes_invisible C E P commit_of eval_of verify deg_ok valid_eval me L enum delta Henum ops
-              (world_init C E P) (world_init C E P)) with (w1 := w) as [w' [Hr' [Ho [Hl _]]]].
-  - repeat split. left. reflexivity.
-  - apply init_good.
-  - exact Hal.
-  - exact Hr.
-  - exists w'. repeat split; assumption.
-Qed.
+Proof. intros. eapply same_outcome; eassumption. Qed.
 Print Assumptions C08_same_outcome_partial.
 
 Example C08_same_outcome_partial_nonvacuous :
-  along DkgEx.C DkgEx.E DkgEx.P DkgEx.commit_of DkgEx.eval_of DkgEx.verify DkgEx.deg_ok DkgEx.valid_eval DkgEx.A DkgEx.L
-        (fun m => m) 1000 (canon DkgEx.C DkgEx.E DkgEx.P) (world_init DkgEx.C DkgEx.E DkgEx.P)
-        (filter (survives DkgEx.C DkgEx.E DkgEx.P) ObEx.ops) /\
   exists w w', ObEx.run_ops ObEx.ops = Some w /\ ObEx.run_ops (filter (survives DkgEx.C DkgEx.E DkgEx.P) ObEx.ops) = Some w' /\
                w_o w = w_o w' /\ w_log w = w_log w'.
-Proof. split; [exact ObEx.canon_along|exact ObEx.survivors_same]. Qed.
+Proof. exact ObEx.survivors_same. Qed.
 
 (* Single commitment.  For every execution (any crash schedule, any attempts that did not
    commit, any randomness): all polynomial commitments of one eon that shuttermint has received
